@@ -1,9 +1,9 @@
 (* C30 — Bison export describes the grammar Textmapper parses.
    Model: Syn/Bison.v (grammar/gen.go: Parser.RulesByNonterm, Grammar.ExprString, Grammar.TokensWithoutPrec;
    the line skeleton of gen/templates/bison.go.tmpl), Syn/BisonRead.v (a reader of the .y file, the boolean
-   well-formedness of names and rules).  Lemmas: Syn/Bison_proofs.v, Syn/Bison_proofs2.v. *)
+   well-formedness of names and rules).  Lemmas: Syn/Bison_proofs.v, Syn/BisonRead_proofs.v. *)
 From Coq Require Import List ZArith Bool.
-From TM Require Import Util.Ident Syn.Expr Syn.Sets Syn.Bison Syn.Bison_proofs Syn.BisonRead Syn.Bison_proofs2.
+From TM Require Import Util.Ident Syn.Expr Syn.Sets Syn.Bison Syn.Bison_proofs Syn.BisonRead Syn.BisonRead_proofs.
 Import ListNotations.
 Local Open Scope Z_scope.
 
